@@ -274,7 +274,7 @@ def gen_configs(rng, h, M, j, x0):
 
 def gen_cases(ctx, salt=15, nsys=None):
     rng = ctx.rng(salt)
-    nsys = nsys or (26 if ctx.quick else 150)
+    nsys = nsys or (22 if ctx.quick else 150)
     kinds = ["hpd", "indef", "negdef", "singular", "diag", "hpd", "indef"]
     cases = []
     tries = 0
@@ -293,11 +293,12 @@ def gen_cases(ctx, salt=15, nsys=None):
         cfgs = gen_configs(rng, h, M, j, x0)
         if not cfgs:
             continue
-        per = 7 if ctx.quick else 12
+        per = 6 if ctx.quick else 12
         idx = rng.permutation(len(cfgs))[:per]
         tree = ["flat", "dict", "nested"][int(rng.integers(0, 3))]
+        nreset = [20, 20, 2, 3][int(rng.integers(0, 4))]
         for i in sorted(idx):
-            cases.append({"M": M, "j": j, "x0": x0, "kw": cfgs[i], "tree": tree, "kind": kind})
+            cases.append({"M": M, "j": j, "x0": x0, "kw": cfgs[i], "tree": tree, "kind": kind, "nreset": nreset})
         nsel += 1
     return cases
 
@@ -346,6 +347,18 @@ def run_impl(case):
     kwargs = dict(absdelta=kw["absdelta"], resnorm=kw["resnorm"], norm_ord=kw["norm_ord"], tol=kw["tol"], atol=kw["atol"],
                   miniter=kw["miniter"], maxiter=kw["maxiter"], _raise_nonposdef=kw["raise"])
     out = {}
+    # N_RESET (module constant, 20) is lowered for some cases so that the residual-recomputation branch
+    # is exercised on small systems; the model takes the same value
+    old_nreset = cgm.N_RESET
+    cgm.N_RESET = int(case.get("nreset", old_nreset))
+    try:
+        _run_both(cgm, mat, jt, x0, kwargs, out)
+    finally:
+        cgm.N_RESET = old_nreset
+    return out
+
+
+def _run_both(cgm, mat, jt, x0, kwargs, out):
     for name, fn in (("eager", cgm._cg), ("static", cgm._static_cg)):
         try:
             r = fn(mat, jt, x0, **kwargs)
@@ -469,10 +482,10 @@ def qlist(v):
     return C.clist([C.cq(x) for x in v])
 
 
-def cfg_term(kw):
-    return "(mkcfg %s %s %s %s %s %s %s %s %s %s)" % (
+def cfg_term(kw, nreset=20):
+    return "(mkcfg %s %s %s %s %s %s %s %s %s %s %s)" % (
         C.copt(kw["absdelta"], C.cq), C.copt(kw["resnorm"], C.cq), C.cbool(kw["norm_ord"] == 2), C.cq(kw["tol"]), C.cq(kw["atol"]),
-        C.copt(kw["miniter"], C.cnat), C.copt(kw["maxiter"], C.cnat), C.cbool(kw["raise"]), C.cq(EPS), C.cq(TINY))
+        C.copt(kw["miniter"], C.cnat), C.copt(kw["maxiter"], C.cnat), C.cbool(kw["raise"]), C.cq(EPS), C.cq(TINY), C.cnat(nreset))
 
 
 def obs_args(o, n):
@@ -490,7 +503,7 @@ def check_term(case, obs):
     mx = case["kw"]["maxiter"]
     fuel = (mx if mx is not None else 20 * n + 200) + 2
     return "chk %s %s %s %s %s %s %s %s %s" % (
-        C.cnat(n), M, qlist(case["j"]), C.copt(case["x0"], qlist), cfg_term(case["kw"]), C.cq(tolx), C.cnat(fuel),
+        C.cnat(n), M, qlist(case["j"]), C.copt(case["x0"], qlist), cfg_term(case["kw"], case.get("nreset", 20)), C.cq(tolx), C.cnat(fuel),
         obs_args(obs["eager"], n), obs_args(obs["static"], n))
 
 
@@ -550,6 +563,7 @@ class C15(C.Check):
                     "distinct by (kind, x0?, tree, ord, absdelta?, resnorm?, miniter, maxiter, raise, verdict, info, nit)",
             "samples": [{"case": strip(c), "eager": o["eager"], "static": o["static"]} for c, o in list(zip(self.cases, self.obs))[3:6]],
             "input_distribution": dist, "disagreements": len(bad), "exhaustive": False,
+            "with_lowered_N_RESET": sum(1 for c in self.cases if c.get("nreset", 20) != 20),
             "at_iteration_limit": sum(1 for c, o in zip(self.cases, self.obs)
                                       if c["kw"]["maxiter"] is not None and o["eager"]["nit"] == c["kw"]["maxiter"] and o["eager"]["info"] == 0),
         })
@@ -586,7 +600,8 @@ class C15(C.Check):
 
 
 def strip(case):
-    return {"M": case["M"], "j": case["j"], "x0": case["x0"], "kw": case["kw"], "tree": case.get("tree", "flat"), "kind": case.get("kind", "")}
+    return {"M": case["M"], "j": case["j"], "x0": case["x0"], "kw": case["kw"], "tree": case.get("tree", "flat"), "kind": case.get("kind", ""),
+            "nreset": case.get("nreset", 20)}
 
 
 CHECK = C15()
